@@ -26,7 +26,7 @@ ASSUMPTIONS = [
     "every node carries the path attribute",
     "Root/ChildResolverError.node must be the node at which the failing component was evaluated and ChildResolverError.child that component; messages are not compared",
 ]
-SEPS = ["/", "|", "::", "\\", "-", " "]
+SEPS = ["/", "|", "::", "\\", "-", " ", "->", "x", " of "]
 ALPHABET = "abAB01.+*?[]()|^$\\ '\"\néÉжЖ漢/:-"
 
 
@@ -302,9 +302,19 @@ def _once(case, acc, nodes, labels):
 
 
 # ---------------------------------------------------------------------------
+def unambiguous(name, sep):
+    """The name can be glued to the separator on either side without creating a second place where the text could be split."""
+    return sep not in name and (name + sep).index(sep) == len(name) and (sep + name).count(sep) == 1 and (sep + name + sep).count(sep) == 2
+
+
 def name_strategy(sep, unique_pool=None):
-    alphabet = "".join(ch for ch in ALPHABET if ch not in sep)
-    return st.text(alphabet=alphabet, min_size=1, max_size=4).filter(lambda s: s not in (".", ".."))
+    if len(sep) == 1:
+        alphabet = "".join(ch for ch in ALPHABET if ch not in sep)
+        return st.text(alphabet=alphabet, min_size=1, max_size=4).filter(lambda s: s not in (".", ".."))
+    # multi-character separators: their single characters may occur in names (also at the end: 'x>' with '->'), as long as
+    # every path spelled with the names still splits back into them
+    alphabet = ALPHABET + "".join(ch for ch in sep if ch not in ALPHABET)
+    return st.text(alphabet=alphabet, min_size=1, max_size=4).filter(lambda s: s not in (".", "..") and unambiguous(s, sep))
 
 
 def uniquify(names, parents, ignorecase_unique=True):
@@ -348,6 +358,8 @@ def random_cases(draw):
                 if len(names[i]) != len(base) or names[i] in (".", ".."):
                     names[i] = base
             last_sibling[parents[i]] = i
+    # whatever produced a name (tags, tuples, counters, case variants): its text must not offer the separator a second place to split
+    names = [n if unambiguous(rr.name_text(n), sep) else "n%d" % i for i, n in enumerate(names)]
     texts = [rr.name_text(n) for n in names]
     comp = st.one_of(st.sampled_from(texts), st.sampled_from(texts), st.sampled_from(texts).map(lambda s: s.swapcase()), st.sampled_from(["..", "..", ".", "", "zz", "a"]), name_strategy(sep))
     paths = []
